@@ -167,6 +167,12 @@ func init() {
 			return nil
 		},
 
+		// --- regexp: compiled patterns are engine objects (matcher: regexp.go) --
+		"regexp.MustCompile": func(e *Exec, _ *frame, _ *ssa.Function, a []Value) Value {
+			return &Opaque{Kind: "regexp", Name: argStr(e, a[0])}
+		},
+		"(*regexp.Regexp).FindSubmatch": regexpFindSubmatch,
+
 		// --- misc library ---------------------------------------------------
 		"github.com/google/uuid.NewString": func(e *Exec, _ *frame, _ *ssa.Function, a []Value) Value {
 			e.uniq++
